@@ -318,7 +318,12 @@ def share_or_copy(fb, rep):
                     ok = True
                 if rv[1] == "Ge" and ("arg", 1) in sa and ("arg", 2) in sc and pure:
                     ok = True
-        if ok:
+        # ... and nothing else: no call, no branch (an extra `|| other.is_root()` shares generation-0 values of an unrelated VM)
+        extra = [c.res for c in g.calls()] + ["branch" for i in range(len(g.blocks)) if g.term(i)[0] == "switch"]
+        if ok and extra:
+            rep.violation(R, "generation-order-extra-clause", "Generation::can_contain_values_from is no longer exactly `other.0 <= self.0` (additional %s): "
+                          "a forced full clone (disjoint receiver generation) would skip values it must copy" % sorted(set(extra)), g.where())
+        elif ok:
             rep.ok(R, "Generation::can_contain_values_from(self, other) is other <= self")
         else:
             rep.violation(R, "generation-order", "Generation::can_contain_values_from is no longer `other.0 <= self.0`", g.where())
@@ -457,6 +462,41 @@ def userdata_clones(fb, rep):
         else:
             rep.violation(R, "userdata-clone|%s" % self_adt, "%s does not rebuild the userdata in the destination heap (alloc_in_cloner_gc=%s %s)" % (b.id, good_alloc, "; ".join(detail)), b.where())
     rep.floor(R, "Userdata::deep_clone overrides", n, 2)
+
+
+def cloner_heap_pairing(fb, rep):
+    """E4e: a Cloner pairs a thread with *that thread's own heap*.
+
+    `Userdata::deep_clone` of the mutable cells (`Reference`, `Lazy`) allocates the copy in `cloner.gc()` and makes
+    `cloner.thread()` its owner; every later store into the cell (`reference::set`, `lazy::force`) clones the new value into
+    the owner's heap (E4a).  That is only sound when the cell lives in its owner's heap or a younger one.  A cloner built
+    with a thread and *another* heap (the global, generation-0 heap) produces cells that live in the old heap but own a
+    younger one: the first store puts a young pointer into an old object, which the young heap's collector never
+    traces (`Gc::mark` skips objects of ancestor generations) — the stored value is freed while reachable."""
+    R = "E4e"
+    rep.rule(R, "every Cloner allocates in the heap of the thread it re-owns cells to")
+    own = {("field", "gluon_vm::thread::Context", "gc"), ("field", "gluon_vm::thread::ExecuteContext", "gc")}
+    pool = [b for b in fb.bodies.values() if b.kind != "coroutine_post"] + list(fb.pre.values())
+    seen = set()
+    n = 0
+    for b in pool:
+        for c in b.calls():
+            if not c.res.endswith("value::Cloner::<'t>::new") or len(c.args) < 2:
+                continue
+            root = b.get("root") or b.id.split("::{closure")[0]
+            if (root, c.line) in seen:
+                continue
+            seen.add((root, c.line))
+            n += 1
+            srcs = flow.sources(b, c.args[1], depth=14)
+            if srcs & own:
+                rep.ok(R, "%s: Cloner::new(thread, &mut <that thread's context>.gc)" % root)
+            else:
+                via = "the global heap (GlobalVmState.gc)" if flow.has_call(srcs, lambda x: x.endswith("Thread::global_env")) else "a heap that is not the thread's context heap"
+                rep.violation(R, "cloner-foreign-heap|%s" % root,
+                              "%s builds a Cloner that allocates in %s but re-owns copied Reference/Lazy cells to the thread: a later store or force puts a pointer "
+                              "to the thread's (younger) heap into the older heap, which the thread's collector never traces" % (root, via), c.where())
+    rep.floor(R, "Cloner constructions", n, 4)
 
 
 def cloner_helpers(fb, rep):
